@@ -31,7 +31,7 @@ HOPS = {'hashjoin': 'join', 'hashleftjoin': 'leftjoin', 'hashrightjoin': 'rightj
 LOOKUPS = ['lookup', 'lookupone', 'dictlookup', 'dictlookupone', 'recordlookup', 'recordlookupone']
 REQUIRED = (['op:' + o for o in HOPS] + ['op:' + o for o in LOOKUPS] +
             ['build-side-duplicates', 'build-side-empty', 'none-key-both-sides', 'pass2-served-from-cached-lookup',
-             'pass2-cache-off-reflects-edit', 'strict-raised', 'strict-not-raised', 'prefilled-dictionary'])
+             'pass2-cache-off-reflects-edit', 'strict-raised', 'strict-not-raised', 'prefilled-dictionary', 'copying-dictionary'])
 
 KPOOL = [None, 1, 1.0, True, 2, 'a', b'a', 'b', (1, 2), gen.D(2020, 1, 1)]
 
@@ -44,7 +44,7 @@ def _mk(op, left, right, **kw):
 
 
 def _lk(fn, table, key, **kw):
-    c = {'kind': 'lookup', 'op': fn, 'table': table, 'key': key, 'value': None, 'strict': False, 'prefill': False}
+    c = {'kind': 'lookup', 'op': fn, 'table': table, 'key': key, 'value': None, 'strict': False, 'prefill': False, 'copying': False}
     c.update(kw)
     return c
 
@@ -64,6 +64,7 @@ def _battery():
         yield _lk(fn, T, ('k', 'v'))
         yield _lk(fn, [['k', 'v', 'w']], 'k')
         yield _lk(fn, T, 'k', prefill=True)
+        yield _lk(fn, T, 'k', prefill=True, copying=True)
         if fn.endswith('one'):
             yield _lk(fn, T, 'k', strict=True)
             yield _lk(fn, U, 'k', strict=True)
@@ -137,7 +138,8 @@ def cases(ctx):
             kw['value'] = vf[0] if (len(vf) == 1 or rng.random() < 0.6) else tuple(vf)
         if fn.endswith('one'):
             kw['strict'] = rng.random() < 0.5
-        kw['prefill'] = rng.random() < 0.2
+        kw['prefill'] = rng.random() < 0.3
+        kw['copying'] = kw['prefill'] and rng.random() < 0.5
         yield _lk(fn, [hdr] + rows, key, **kw)
 
 
@@ -315,6 +317,18 @@ def _judge_join(case, ctx):
 
 # ---------------------------------------------------------------------------
 
+class CopyingDict(dict):
+    """a mapping that, like shelve, returns a copy of the stored value on every read: an in-place append to what
+    __getitem__ returned is lost unless the value is written back (the lookup functions document shelve support)"""
+
+    def __getitem__(self, k):
+        import copy
+        return copy.copy(dict.__getitem__(self, k))
+
+    def get(self, k, default=None):
+        return self[k] if k in self else default
+
+
 def _judge_lookup(case, ctx):
     fn = case['op']
     table = copy.deepcopy(case['table'])
@@ -369,6 +383,9 @@ def _judge_lookup(case, ctx):
     d = None
     if case['prefill']:
         d = dict((k, (list(v) if isinstance(v, list) else v)) for k, v in pre.items())
+        if case.get('copying'):
+            d = CopyingDict(d)
+            ctx.seen('copying-dictionary')
         kw['dictionary'] = d
     f = getattr(petl, fn)
     try:
